@@ -562,3 +562,80 @@ def numbering(ctx, rep, r3, em=None):
                       "%s.%s returns the next free id after its members" % (cls.name, hook), f.qualname,
                       "returns %s" % [src(x)[:60] for x in rets],
                       "the id following a nested scheduler collides with an id used inside it")
+
+
+# ------------------------------------------------------------------ ids are DOT identifiers
+_SPEC = None
+
+
+def _bad_spec(spec):
+    """a format spec that pads with something else than zeros: [[fill]align][sign][#][0][width]..."""
+    import re
+    m = re.match(r'^(?:(.)?([<>=^]))?([-+ ])?(#)?(0)?(\d+|@N@)?', spec)
+    if not m:
+        return None
+    fill, align, sign, _alt, zero, width = m.groups()
+    if sign == ' ':
+        return "a blank in place of the sign"
+    if width and not zero and (fill is None or fill != '0'):
+        return "padded to a width with %s" % ("blanks" if fill in (None, ' ') else repr(fill))
+    return None
+
+
+def id_alphabet(ctx, rep, rule):
+    """the ids written into the jobs become DOT identifiers (node names, `cluster_<id>`): a format that pads
+    with blanks, or a template with white space, yields an invalid identifier"""
+    import re
+    r = ctx.roles
+    p = ctx.prog
+    rid = p.supplier(r.jobbase, 'repr_id')
+    at = {n.attr for n in walk_local(rid.node) if isinstance(n, ast.Attribute) and isinstance(n.value, ast.Name)
+          and n.value.id == 'self'} if rid is not None else set()
+    if len(at) != 1:
+        rep.error(rule, "id attribute (read by repr_id) not recognised")
+        return
+    id_attr = at.pop()
+    def assigns_ids(f):
+        return any(isinstance(n, ast.Attribute) and n.attr == id_attr and isinstance(n.ctx, ast.Store)
+                   for n in walk_local(f.node))
+
+    def passes_template(f):
+        # the function that computes the format handed to the per-job numbering hook
+        return any(isinstance(n, ast.Call) and isinstance(n.func, ast.Attribute)
+                   and any(assigns_ids(c) for c in callees_by_name(p, f, n)) for n in walk_local(f.node))
+    funcs = [f for f in p.all_functions() if f.name != '__init__' and (assigns_ids(f) or passes_template(f))]
+    rep.need(rule, len(funcs), 2, "functions that assign ids")
+    n = 0
+    for f in funcs:
+        for c in walk_local(f.node):
+            if not (isinstance(c, ast.Constant) and isinstance(c.value, str) and '{' in c.value):
+                continue
+            par = getattr(c, '_parent', None)
+            if isinstance(par, ast.Expr):
+                continue        # docstring
+            tpl = c.value
+            gpar = getattr(par, '_parent', None)
+            generates = isinstance(par, ast.Attribute) and par.attr == 'format' and '{{' in tpl
+            if generates:
+                # a template that produces a template: `"{{:0{w}d}}".format(w=width)`
+                tpl = re.sub(r'\{[^{}]*\}', '@N@', tpl.replace('{{', '\x00').replace('}}', '\x01'))
+                tpl = tpl.replace('\x00', '{').replace('\x01', '}')
+            n += 1
+            bad = None
+            for m in re.finditer(r'\{[^{}:!]*(?:![rsa])?(?::([^{}]*))?\}', tpl):
+                if m.group(1):
+                    bad = bad or _bad_spec(m.group(1))
+            lit = re.sub(r'\{[^{}]*\}', '', tpl)
+            if re.search(r'\s', lit):
+                bad = bad or "white space in the template"
+            rep.check(bad is None, rule, "%s:%d id template yields a DOT identifier" % (f.module.relpath, c.lineno),
+                      f.qualname, "id template `%s` (%s): %s" % (c.value, tpl, bad),
+                      "ids are embedded in node and cluster names: `subgraph cluster_ 2{` is a DOT syntax error")
+        for c in walk_local(f.node):
+            if isinstance(c, ast.Call) and isinstance(c.func, ast.Attribute) and c.func.attr in ('rjust', 'ljust', 'center'):
+                fillc = c.args[1] if len(c.args) > 1 else None
+                n += 1
+                rep.check(isinstance(fillc, ast.Constant) and fillc.value == '0', rule,
+                          "%s:%d id padded with zeros" % (f.module.relpath, c.lineno), f.qualname,
+                          "`%s` pads the id with blanks" % src(c), "ids with blanks are not DOT identifiers")
+    rep.need(rule, n, 1, "id templates")
